@@ -212,6 +212,7 @@ def build(ns, jdp, t0, dt, k0_t, truth_only, events):
     sc._sensor_agents = SymDict({i: _token_agent(ns, i, js, log, "sensor") for i in SEN_IDS})
     sc._estimate_agents = SymDict({i: _token_agent(ns, i, js, log, "estimate") for i in TGT_IDS})
     sc._ephem_importer = None
+    sc._stepped_epochs = {}  # (attribute the real constructor sets)
     for ags in (sc.target_agents, sc._sensor_agents, sc._estimate_agents):
         for ag in ags.values():
             ag.datetime_start = t0
@@ -408,6 +409,7 @@ def _concrete_run(d, kind="impulse", truth_only=True):
     sc._sensor_agents = {i: _token_agent(ns, i, js, log, "sensor") for i in SEN_IDS}
     sc._estimate_agents = {i: _token_agent(ns, i, js, log, "estimate") for i in TGT_IDS}
     sc._ephem_importer = None
+    sc._stepped_epochs = {}  # (attribute the real constructor sets)
     ex = types.SimpleNamespace(enqueueJob=nul, join=nul)
     sc._agent_propagator = sc._estimate_predictor = sc._estimate_updater = ex
     sc._target_store, sc._sensor_store, sc._estimate_store = {}, {}, {}
@@ -620,6 +622,7 @@ def replay_scopes(d):
         for a in ags.values():
             a._time, a.dt_step, a.datetime_start = ScenarioTime(k0 * dt), ScenarioTime(dt), start
     sc._ephem_importer = None
+    sc._stepped_epochs = {}  # (attribute the real constructor sets)
 
     class Exec:
         def __init__(self):
@@ -700,6 +703,7 @@ def replay_applied(d):
     sc.target_agents = {i: _token_agent(ns, i, js, log, "target") for i in TGT_IDS}
     sc._sensor_agents, sc._estimate_agents = {}, {i: _token_agent(ns, i, js, log, "estimate") for i in TGT_IDS}
     sc._ephem_importer = None
+    sc._stepped_epochs = {}  # (attribute the real constructor sets)
     x0 = np.array([7000.0, 0.0, 0.0, 0.0, 7.546, 0.0])
     for a in sc.target_agents.values():
         a._time, a.dt_step, a.eci_state, a.dynamics, a.datetime_start = ScenarioTime(k0 * dt), ScenarioTime(dt), x0.copy(), TwoBody(), start
